@@ -312,9 +312,16 @@ func main() {
 		{name: "rounded box 2x1x0.5 in a 2.6x1.3x0.65 box", s: m3(sdf.Box3D(v3.Vec{X: 2, Y: 1, Z: 0.5}, 0.1)), box: v3.Vec{X: 2.6, Y: 1.3, Z: 0.65}},
 		{name: "sphere r=1 in a 3x3.6x4.5 box", s: m3(sdf.Sphere3D(1)), box: v3.Vec{X: 3, Y: 3.6, Z: 4.5}},
 		{name: "sphere r=1 in a 4.5x3x2.5 box", s: m3(sdf.Sphere3D(1)), box: v3.Vec{X: 4.5, Y: 3, Z: 2.5}},
+		// boxes whose shorter sides are not a whole number of cells (the cell count is truncated per axis, so the
+		// voxels are not cubes), longest along each axis in turn
+		{name: "sphere r=0.7 in a 4x1.49x1.49 box", s: m3(sdf.Sphere3D(0.7)), box: v3.Vec{X: 4, Y: 1.49, Z: 1.49}},
+		{name: "sphere r=0.7 in a 1.49x4x1.49 box", s: m3(sdf.Sphere3D(0.7)), box: v3.Vec{X: 1.49, Y: 4, Z: 1.49}},
+		{name: "sphere r=0.7 in a 1.49x1.49x4 box", s: m3(sdf.Sphere3D(0.7)), box: v3.Vec{X: 1.49, Y: 1.49, Z: 4}},
+		{name: "sphere r=0.9 in a 4x1.9x2.3 box", s: m3(sdf.Sphere3D(0.9)), box: v3.Vec{X: 4, Y: 1.9, Z: 2.3}},
+		{name: "rounded box in a 5x1.7x1.3 box", s: m3(sdf.Box3D(v3.Vec{X: 3, Y: 1.2, Z: 0.9}, 0.2)), box: v3.Vec{X: 5, Y: 1.7, Z: 1.3}},
 	} {
 		nc.size = math.Max(nc.box.X, math.Max(nc.box.Y, nc.box.Z))
-		nc.ns = []int{8, 16, 20}
+		nc.ns = []int{8, 16, 20, 24}
 		nc.class = "non-cubic-box"
 		shapes = append(shapes, nc)
 	}
